@@ -70,7 +70,13 @@ func c07(x *runCtx) {
 		}
 		for _, enc := range encs {
 			c07Kind(x, ctx, r, k, enc)
+			c07NoDeviceCert(x, k, enc)
 		}
+	}
+	// expiry as the SQLite blob store enforces it (real clock: one kind in the quick tier)
+	c07SqliteExpiry(x, lab.KindByName("P-256"), protocol.X509KeyEnc)
+	if x.thorough() {
+		c07SqliteExpiry(x, lab.KindByName("RSA2048RESTR"), protocol.X5ChainKeyEnc)
 	}
 }
 
